@@ -15,6 +15,7 @@ import sys
 import tempfile
 
 sys.path.insert(0, os.path.dirname(os.path.dirname(os.path.abspath(__file__))))
+sys.path.insert(0, os.path.dirname(os.path.abspath(__file__)))
 import common  # noqa: E402
 import mexsession  # noqa: E402
 import proj  # noqa: E402
@@ -104,6 +105,59 @@ def replay(item):
     return bad
 
 
+def static_pass(rep, thorough):
+    """'for all generated gateways': the unload routine of every generated gateway of the derived modules must free
+    every collector (clause C11:* of MexTrace; generated text scanned, expectation computed by TLC from the instantiated tree)."""
+    import glob
+    import c05
+    import cases
+    import layout
+    import mexcheck
+    rng = random.Random(rep.seed + 7)
+    plan = [("sim", dict(n=1500 if thorough else 150, target=10)),
+            ("exh", dict(universe="classes", target=4, members=3, sample=2000 if thorough else 150)),
+            ("exh", dict(universe="ns", target=4, members=1, sample=2000 if thorough else 150, pairs=True)),
+            ("exh", dict(universe="inst", target=40, maxitems=2, sample=None if thorough else 100))]
+    allcases = []
+    for kind, kw in plan:
+        if kind == "sim":
+            cs, r = cases.simulate(seed=rep.seed, **kw)
+        else:
+            sample = kw.pop("sample", None)
+            pairs = kw.pop("pairs", False)
+            cs, r = cases.exhaustive(**kw)
+            if sample is not None and len(cs) > sample:
+                cs = common.cover_pairs(cs, rng, sample) if pairs else rng.sample(cs, sample)
+        rep.count("states", max(r.distinct, r.generated))
+        rep.count("transitions", r.generated)
+        allcases += [(c["origin"], layout.render(c["toks"])) for c in cs]
+    for f in sorted(glob.glob(os.path.join(common.REPO, "tests", "fixtures", "*.i"))):
+        with open(f) as fh:
+            allcases.append((os.path.basename(f), fh.read()))
+    items = [("g%d" % i, origin, text, rep.seed * 100003 + i, 1) for i, (origin, text) in enumerate(allcases)]
+    batch, meta = [], {}
+    for lst in common.pmap(c05.job, items, chunksize=4):
+        for oid, origin, text, opts, ob in lst:
+            if ob["outcome"] == "ok" and c05.unique_artefacts(ob["inst"]):
+                meta[oid] = (origin, text, opts)
+                batch.append({"id": oid, "inst": ob["inst"], "opts": opts, "files": ob["files"], "cpp": ob["cpp"], "ncpp": ob["ncpp"]})
+    ncoll = 0
+    for k in range(0, len(batch), 300):
+        verdicts, r = mexcheck.validate(batch[k:k + 300])
+        rep.count("states", r.distinct)
+        rep.count("transitions", r.generated)
+        for b in batch[k:k + 300]:
+            ncoll += len(b["cpp"]["collectors"]) if b["cpp"] else 0
+            for clause in verdicts[b["id"]]:
+                body, _, cls = clause.partition("/")
+                if body.startswith("C11:"):
+                    origin, text, opts = meta[b["id"]]
+                    rep.violation(body, cls, {"origin": origin, "text": text, "opts": opts})
+    rep.cov["gateways_whose_unload_routine_was_validated"] = len(batch)
+    rep.cov["collectors_in_those_gateways"] = ncoll
+    rep.count("evaluations", len(batch))
+
+
 def main():
     rep = common.Report(PID, "model_checking")
     thorough = rep.tier == "thorough"
@@ -163,6 +217,7 @@ def main():
                            "model_counterexample": rh.violation})
     finally:
         shutil.rmtree(work, ignore_errors=True)
+    static_pass(rep, thorough)
     nsteps = sum(len(s["trace"]) for s in sessions)
     rep.count("traces_validated_against_impl", len(sessions) + len(sub))
     rep.count("evaluations", len(sessions) + len(sub))
